@@ -1,5 +1,6 @@
 import RedactVerif.Props.C01
 import RedactVerif.Props.L2
+import RedactVerif.Proofs.FuelMono
 import RedactVerif.Props.C09
 import RedactVerif.Props.FactsSkelPrinter
 import RedactVerif.Props.FactsSkelWriters
@@ -30,8 +31,10 @@ oracle, every argument list and every format:
 * the SafeFormat route (`safeformat_print_route`, `safeformat_route_same_output`): `Sprint(v)` for a
   `v` whose `SafeFormat` calls `w.Print(args...)` runs, inside the nested printer, the very
   `doPrintLoop` that `Sprint(args...)` runs, on the same printer state, and hands its result back
-  unchanged: the same bytes. In the model the inner run has seven units less fuel (fuel is a proof
-  device; that results do not depend on it beyond being enough is not proved).
+  unchanged: the same bytes. In the model the inner run has seven units less fuel; fuel is a proof
+  device, and results do not depend on it beyond its being enough (`Proofs/FuelMono.lean`:
+  `mspec_all`, for all 21 functions), so at any common fuel that suffices for the longer route the
+  two routes print the same (`safeformat_route`).
 
 The same agreement for an outer printer that already holds text (nested-printer route) rests on
 the correspondence (B streams with `pr` operations, P-model scripts with nested prints) and the
@@ -188,5 +191,35 @@ theorem safeformat_route_same_output (env : Env) (he : EnvOk env) (n : Nat) (ms 
   rw [h1, h2]
   simp only [Res.output]
   rw [setMode_same _ _ hm]
+
+/-- **SafeFormat route, at any common fuel**: once the fuel suffices for the route through the
+SafeFormat method, `Sprint(v)` and `Sprint(args...)` print the same. -/
+theorem safeformat_route (env : Env) (he : EnvOk env) (n : Nat) (ms : Methods) (ty : List Byte) (ret : Nat)
+    (under : Val) (args : Vals) (ha : ValsOk args) (hsf : ms.safeFormatter = true) (np' : PP)
+    (h : doPrintLoop env n p1 args.toList 0 false = .ok np') (N : Nat) (hN : n + 8 ≤ N) :
+    (doPrint env N newPP [.meth ms ty false false false ret (.print args .done) under]).output =
+      (doPrint env N newPP args.toList).output := by
+  have ⟨h1, h2⟩ := safeformat_print_route env n ms ty ret under args hsf np' h
+  have e := safeformat_route_same_output env he n ms ty ret under args ha hsf np' h
+  obtain ⟨k, rfl⟩ : ∃ k, N = n + 8 + k := ⟨N - (n + 8), by omega⟩
+  rw [doPrint_fuel env (n + 8) newPP _ _ h2 (by intro hh; cases hh) k]
+  have : n + 8 + k = n + 1 + (7 + k) := by omega
+  rw [this, doPrint_fuel env (n + 1) newPP _ _ h1 (by intro hh; cases hh) (7 + k)]
+  rw [h1, h2] at e
+  exact e
+
+/-- `Sprint`'s result does not depend on the model's default fuel: any fuel that yields a result
+yields this one. -/
+theorem sprint_fuel_irrelevant (env : Env) (args : List Val) (n : Nat) (hn : n ≤ defaultFuel) (r : Res)
+    (h : doPrint env n newPP args = r) (hr : r ≠ .fuel) : sprint env args = r := by
+  obtain ⟨k, hk⟩ : ∃ k, defaultFuel = n + k := ⟨defaultFuel - n, by omega⟩
+  unfold sprint; rw [hk]
+  exact doPrint_fuel env n newPP args r h hr k
+
+theorem sprintf_fuel_irrelevant (env : Env) (f : List Byte) (args : List Val) (n : Nat) (hn : n ≤ defaultFuel) (r : Res)
+    (h : doPrintf env n newPP f args = r) (hr : r ≠ .fuel) : sprintf env f args = r := by
+  obtain ⟨k, hk⟩ : ∃ k, defaultFuel = n + k := ⟨defaultFuel - n, by omega⟩
+  unfold sprintf; rw [hk]
+  exact doPrintf_fuel env n newPP f args r h hr k
 
 end Redact
